@@ -91,6 +91,7 @@ fn accepted_language(alpha: &[char], max_len: usize) -> Vec<String> {
     out
 }
 
+static CWD_LAYER_RUNS: std::sync::atomic::AtomicU64 = std::sync::atomic::AtomicU64::new(0);
 static STDIN_LAYER_RUNS: std::sync::atomic::AtomicU64 = std::sync::atomic::AtomicU64::new(0);
 
 fn main() {
@@ -301,6 +302,39 @@ fn main() {
         }
         STDIN_LAYER_RUNS.store(sx.get("check_stdin_state_runs"), std::sync::atomic::Ordering::Relaxed);
     }
+    // ... and nothing in the start directory either: zerv is started in a directory that holds a regular file named exactly like the
+    // argument (VERSION, release, version.txt, 1.2.3, -, ...) whose content is a valid version (one line, several lines, with a BOM),
+    // plus the usual project files; verdict and shown version are those of the argument
+    {
+        let bin = proc::zerv_bin();
+        let names = ["VERSION", "version", "release", "latest", "version.txt", ".version", "HEAD", "main", "Cargo.toml", "pyproject.toml", "package.json", "-", "@-", "stdin", "a", "v", "1", "1.2.3", "1.0", "v1.0.0-rc.1", "1..0", "+", "~", "zerv.toml", ".zerv"];
+        let contents = ["9.9.9\n", "9.9.9", "v1.0.0-rc.1\nnot a version\n", "\u{feff}9.9.9\n", "version = \"9.9.9\"\n"];
+        let dirs: Vec<std::path::PathBuf> = contents.iter().enumerate().map(|(ci, content)| {
+            let d = zvharness::gitx::scratch_root().join(format!("semver-cwd-{ci}"));
+            std::fs::create_dir_all(&d).unwrap_or_else(|e| machinery_error(&format!("mkdir {d:?}: {e}")));
+            for n in names.iter() { std::fs::write(d.join(&n), content).unwrap_or_else(|e| machinery_error(&format!("write {n:?}: {e}"))); }
+            d
+        }).collect();
+        let jobs: Vec<(&str, usize, bool)> = names.iter().flat_map(|n| (0..dirs.len()).flat_map(move |ci| [(*n, ci, true), (*n, ci, false)])).collect();
+        let outs: Vec<((&str, usize, bool), proc::Out)> = jobs.par_iter().map(|&(n, ci, with_format)| {
+            let mut args: Vec<String> = vec!["check".into()];
+            if with_format { args.extend(["--format".to_string(), "semver".to_string()]); }
+            args.push("--".into()); args.push(n.to_string());
+            let o = proc::run(&proc::Run { program: &bin, args, stdin: None, env: proc::base_env(), cwd: Some(&dirs[ci]), timeout: std::time::Duration::from_secs(10) }).unwrap_or_else(|e| machinery_error(&format!("spawn zerv: {e}")));
+            ((n, ci, with_format), o)
+        }).collect();
+        let mut n_runs = 0u64;
+        for ((n, ci, with_format), o) in outs {
+            if o.timed_out { machinery_error("zerv check timed out"); }
+            n_runs += 1;
+            let inproc = zv::check(n, if with_format { Some("semver") } else { None });
+            let same = match &inproc { Ok(t) => o.status == 0 && o.stdout_str() == format!("{t}\n"), Err(_) => o.status != 0 && o.stdout.is_empty() };
+            if !same { ctx.violation("check_verdict_depends_on_start_directory", format!("check {}-- {n:?} started in a directory holding a file {n:?} with content {:?}", if with_format { "--format semver " } else { "" }, contents[ci]), json!({"input": n, "kind": "proc-cwd", "content": contents[ci]}), format!("binary exit {} stdout {:?}; the argument alone gives {:?}", o.status, o.stdout_str(), inproc)); }
+        }
+        for d in dirs { let _ = std::fs::remove_dir_all(d); }
+        let _ = std::fs::remove_dir(zvharness::gitx::scratch_root());
+        CWD_LAYER_RUNS.store(n_runs, std::sync::atomic::Ordering::Relaxed);
+    }
     // process conformance slice: first 200 strings of (b)'s language and 100 rejected edits go through
     // the real binary (`zerv check --format semver -- <s>`)
     let bin = proc::zerv_bin();
@@ -346,6 +380,8 @@ fn main() {
     cov.exhaustive = true;
     cov.samples = vec![json!("1.0.0-0a.٣"), json!(lang[lang.len() / 2]), json!(lang[lang.len() - 1]), c_samples[0].clone()];
     cov.set("check_stdin_state_runs", STDIN_LAYER_RUNS.load(std::sync::atomic::Ordering::Relaxed));
+    cov.set("check_start_directory_runs", CWD_LAYER_RUNS.load(std::sync::atomic::Ordering::Relaxed));
+    cov.set("check_start_directory_layer", json!("25 arguments (project-file names, stdin-like words, valid and invalid versions) x 5 contents of a same-named regular file in the start directory x with / without --format, through the binary: verdict and shown version are those of the argument"));
     cov.set("clause_counts", all.to_json());
     cov.set("model_xcheck_cases", sx.get("model_xcheck_cases") + sx2.get("model_xcheck_cases"));
     cov.set("process_conformance_cases", sp.get("process_conformance_cases"));
